@@ -110,6 +110,23 @@ pub fn seeds() -> Vec<(String, Vec<u8>)> {
     let (vhea, vmtx) = vhea_vmtx(4);
     v.push(("vhea-vmtx".into(), minimal_font(4, &cm, &[(tag(b"vhea"), vhea), (tag(b"vmtx"), vmtx)])));
     v.push(("post2".into(), minimal_font(4, &cm, &[(tag(b"post"), post2(&[".notdef", "A", "B", "smile"]))])));
+    // sbix strikes whose 'dupe' records form a chain or a cycle (the fixture has glyph 2 -> 1 and glyph 3 -> itself):
+    // reference graphs that no single fault from the value menus produces
+    if let Ok(base) = std::fs::read("/repo/tests/fonts/sbix/sbix-dupe.ttf") {
+        let dupes: Vec<usize> = base.windows(4).enumerate().filter(|(_, w)| *w == b"dupe").map(|(i, _)| i + 4).collect();
+        if dupes.len() == 2 && dupes[1] + 2 <= base.len() {
+            let patch = |a: u16, b: u16| {
+                let mut d = base.clone();
+                d[dupes[0]..dupes[0] + 2].copy_from_slice(&a.to_be_bytes());
+                d[dupes[1]..dupes[1] + 2].copy_from_slice(&b.to_be_bytes());
+                d
+            };
+            v.push(("sbix-dupe-cycle-2-3".into(), patch(3, 2)));
+            v.push(("sbix-dupe-chain-3-2-1".into(), patch(1, 2)));
+            v.push(("sbix-dupe-both-self".into(), patch(2, 3)));
+            v.push(("sbix-dupe-out-of-range".into(), patch(4, 0xFFFF)));
+        }
+    }
     // a TrueType collection of two small fonts sharing tables
     {
         let t = otmodel::tables::minimal_tables(4, &cm, &[]);
